@@ -284,13 +284,21 @@ def paramFlags (m : GoMap) (label : GoVal) : String :=
 
 def curveOfBits (bits : Nat) : Int := if bits = 256 then 1 else if bits = 384 then 2 else if bits = 521 then 3 else 0
 
-/-- `NewKeyEC2(alg, X.Bytes(), Y.Bytes(), D.Bytes())` for a key on the curve with `bits`;
-    coordinates as natural numbers.  (`big.Int.Bytes()` of 0 is the empty, non-nil slice.) -/
+/-- `ec2Coordinate(v, size)` (key.go): a coordinate at the size of the curve's field, leading
+    zero octets preserved; a value that does not fit is left in minimal form for `validate` to
+    refuse -/
+def ec2Coordinate (v size : Nat) : Bytes :=
+  if bitLen v > size * 8 then natBytes v else fillBytes size v
+
+/-- `NewKeyEC2(alg, x, y, D.Bytes())` with `x, y := ec2Coordinates(pub)` for a key on the curve
+    with `bits`; coordinates as natural numbers.  (`big.Int.Bytes()` of 0 is the empty, non-nil
+    slice.) -/
 def keyFromEC (bits : Nat) (x y : Nat) (d : Option Nat) : Out Key :=
   let crv := curveOfBits bits
   if crv = 0 then .err .other else
   let alg : Int := if crv = 1 then -7 else if crv = 2 then -35 else -36
-  let params : GoMap := [(lbl (-1), .crv crv), (lbl (-2), .bytes (natBytes x)), (lbl (-3), .bytes (natBytes y))]
+  let size := curveSize crv
+  let params : GoMap := [(lbl (-1), .crv crv), (lbl (-2), .bytes (ec2Coordinate x size)), (lbl (-3), .bytes (ec2Coordinate y size))]
   let params := match d with | some dv => params ++ [(lbl (-4), .bytes (natBytes dv))] | none => params
   let k : Key := { kty := 2, alg := alg, params := params }
   match k.validate .none with
